@@ -695,7 +695,11 @@ def strings_upto(alpha, n):
 _TOKEN_RE = re.compile(r'"(?:\\.|[^"\\])*"|(?:\\.|[^\s"])+')
 
 BIGNUM = "1" * 4400  # more digits than CPython's int<->str conversion limit (4300)
-TOKEN_REPL = ['""', "\\", "\\#", "-1", "256", "65536", "4294967296", "x", "nan", "1e999", "\\300", "(", ")", ";", BIGNUM]
+# LONGDATA: valid hex (65536 octets) and valid base64 (98304 octets): one octet more than a
+# 16-bit length prefix can describe
+LONGDATA = "abab" * 32768
+TOKEN_REPL = ['""', "\\", "\\#", "-1", "256", "65536", "4294967296", "x", "nan", "1e999", "\\300", "(", ")", ";", BIGNUM,
+              LONGDATA]
 ZONE_TOKEN_REPL = TOKEN_REPL + ["@", "$TTL", "$ORIGIN", "$INCLUDE", "$GENERATE", "IN", "CH", "ANY", "1-2", "a\\300"]
 MSG_TOKEN_REPL = TOKEN_REPL + ["@", "XX", "FLAG16", "FLAG77", "IN", "NONE", "ANY", "UPDATE", "99", "a\\300"]
 CHARS_Q = ["\\", '"', " ", "(", ")", ";", "\n", ".", "@", "$", "0", "9", "é"]
